@@ -53,7 +53,7 @@ type Engine struct {
 	// controlledTriggersBySite stores the set of controlled triggers for each site if the site
 	// controls any triggers. This field is for internal use in the struct only and should not be
 	// accessed elsewhere.
-	controlledTriggersBySite map[primitiveSite]map[annotation.FullTrigger]bool
+	controlledTriggersBySite map[primitiveSite][]annotation.FullTrigger
 }
 
 // NewEngine constructs an inference engine that is ready to run inference.
@@ -327,22 +327,21 @@ func (e *Engine) ObservePackage(pkgFullTriggers []annotation.FullTrigger) {
 }
 
 func (e *Engine) buildPkgInferenceMap(triggers []annotation.FullTrigger) {
-	// Map each site to all the triggers controlled by the site
-	controlledTgsBySite := map[primitiveSite]map[annotation.FullTrigger]bool{}
+	// Map each site to all the (distinct) triggers controlled by the site. The triggers are kept
+	// in their original order (rather than in a set) since the order in which they are activated
+	// decides the order of the sites in the inferred map, and hence in the exported facts.
+	controlledTgsBySite := map[primitiveSite][]annotation.FullTrigger{}
+	seen := map[annotation.FullTrigger]bool{}
 	for _, trigger := range triggers {
-		if !trigger.Controlled() {
+		if !trigger.Controlled() || seen[trigger] {
 			continue
 		}
+		seen[trigger] = true
 		// controller is an CallSiteParamAnnotationKey, which must be enclosed in a ArgPass
 		// consumer, which Kind() method returns Conditional which is not deep. Thus, we pass false
 		// here.
 		site := e.primitive.site(trigger.Controller, false)
-		ts, ok := controlledTgsBySite[site]
-		if !ok {
-			ts = map[annotation.FullTrigger]bool{}
-			controlledTgsBySite[site] = ts
-		}
-		ts[trigger] = true
+		controlledTgsBySite[site] = append(controlledTgsBySite[site], trigger)
 	}
 	e.controlledTriggersBySite = controlledTgsBySite
 
@@ -514,7 +513,7 @@ func (e *Engine) storeDeterminedAndActivateControlledTriggers(site primitiveSite
 // to be a new value.
 func (e *Engine) activateControlledTriggers(site primitiveSite, siteExplained ExplainedBool) {
 	if controlledTgs, ok := e.controlledTriggersBySite[site]; ok && siteExplained.Val() {
-		for tg := range controlledTgs {
+		for _, tg := range controlledTgs {
 			e.buildFromSingleFullTrigger(tg)
 		}
 	}
